@@ -404,6 +404,7 @@ package node
 //@   loop 1 invariant 0 <= i && i <= l && l <= len(m) && l <= len(objs) && len(vals) == len(m)
 //@   loop 1 decreases l - i
 //@   ensures result1 == nil ==> len(result0) == len(m)
+//@   ensures [allKeysGiven] result1 == nil ==> len(objs) >= len(m)
 
 //@ func NewValues(m []meta.Leafable, objs ...interface{}) ([]val.Value, error)
 //@   mode int
